@@ -1396,7 +1396,7 @@ def check_C20(tier, seed):
                   ("k2", dict(CDx=2, CDy=3, CDz=1, CWx=3, CWy=2, CWz=4, NP=3, K=2, Step=1, Flat=True))]
     if tier == "thorough":
         knn_models += [("k2n4", dict(CDx=2, CDy=3, CDz=1, CWx=3, CWy=2, CWz=4, NP=4, K=2, Step=1, Flat=True)),
-                       ("3d", dict(CDx=2, CDy=2, CDz=2, CWx=2, CWy=3, CWz=2, NP=3, K=1, Step=1, Flat=False)),
+                       ("3d", dict(CDx=2, CDy=2, CDz=2, CWx=2, CWy=1, CWz=2, NP=3, K=1, Step=1, Flat=False)),
                        ("k0", dict(CDx=3, CDy=3, CDz=1, CWx=4, CWy=2, CWz=4, NP=2, K=0, Step=2, Flat=True))]
     for name, c in knn_models:
         cfgk = os.path.join(OUT, "tlc", "vknn_%s.cfg" % name)
